@@ -17,7 +17,7 @@ RULE = ('queries {finite flat facts; a fact whose second argument is a 60-elemen
         'rule with a deep failing branch between answers; registered Python predicates whose clean-up (finally) code needs 0, 3, 12 or 30 nested calls, queried directly and through call/1; predicates answered from two sources (dynamic facts followed by compiled clauses, dynamic facts followed by a Python predicate)} x EVERY recursion_limit from 8 to 400 (each value moves the '
         'point at which the limit strikes; quick: every value up to 89, then every 7th) x projection functions {identity, observe the variables, '
         'raise ValueError at the k-th answer for k=1..5, raise RuntimeError at the 2nd, raise StopIteration at the 2nd, run a bounded sub-query on the same engine for every answer (nested evaluate_bounded, inner limit 150 / 500)}, '
-        'called from a shallow stack. Checked: no RecursionError escapes; the result is a prefix of RefProlog\'s answer '
+        'called from a shallow stack; plus bounds ABOVE the interpreter\'s own limit (1200, 3000, 10000) for nat/1, ev/1, a compiled recursion over a dynamic base fact and len/2 of a 700-element list, with the identity projection and projections raising at answer 1, 200, 450, 900, 1400 (each call in a forked child: a dying interpreter is a violation). Checked: no RecursionError escapes; the result is a prefix of RefProlog\'s answer '
         'sequence (projected), and the whole sequence when the limit exceeds the measured stack depth of an unbounded '
         'run by a margin; afterwards sys.getrecursionlimit() is the old value and every live engine variable (weak set '
         'hook) is unbound - also when the projection raised and the caller still holds the query. evaluations = '
@@ -286,7 +286,7 @@ def reference():
 def plan(tier):
     ls = limits(tier)
     n = 16
-    return [(tier, k, n) for k in range(n)]
+    return [(tier, k, n) for k in range(n)] + [('high', k, 16) for k in range(16)]
 
 
 def _shard(spec, acc):
@@ -325,11 +325,137 @@ def _shard(spec, acc):
                     acc.sample({'query': show_term(goal), 'recursion_limit': limit, 'projection': pn, 'answers_returned': info[0]}, limit=2)
 
 
+# ---- bounds ABOVE the interpreter's own limit ---------------------------------------------------
+# evaluate_bounded(q, f, 10000) is a legitimate call: the search may then go deeper than the
+# interpreter's default limit, answers are delivered while thousands of generators are suspended,
+# and the projection may raise there.  Every case runs in a forked child: if the interpreter
+# itself dies (fatal stack overflow) the child is gone, which is reported as a violation.
+HIGH_BOUNDS = [1200, 3000, 10000]
+HIGH_RAISE_AT = [None, 1, 200, 450, 900, 1400, 2000]
+
+
+def high_cases():
+    for bound in HIGH_BOUNDS:
+        for qn in ('nat', 'evenodd', 'len700', 'mixed-deep', 'nat-then-python'):
+            for k in HIGH_RAISE_AT:
+                if qn == 'len700' and k not in (None, 1):
+                    continue
+                yield bound, qn, k
+
+
+def high_goal(qn):
+    if qn == 'nat':
+        return F('nat', V('Q'))
+    if qn == 'evenodd':
+        return F('ev', V('Q'))
+    if qn == 'len700':
+        return F('len', lst(700), V('Q'))
+    if qn == 'nat-then-python':
+        # a Python predicate (clean-up code needing 12 nested calls) suspended below a deep recursion
+        return F('np', V('Q'))
+    return F('natd', V('Q'))
+
+
+def high_case(bound, qn, k):
+    """-> None | (sig, detail), info"""
+    sys.setrecursionlimit(1000)
+    pytext = compile_cached(show_program(PROGRAM + [(F('natd', F('s', N)), call(F('natd', N))),
+                                                   (F('np', V('Q')), conj(call(F('nat', V('Nn'))), call(F('pyg12', V('Q')))))]))
+    yp = impl.YP()
+    yp.load_script_from_string(pytext, fn=impl.SCRIPT_FN)
+    _register_python(yp)
+    yp.assert_fact(yp.atom('natd'), [yp.atom('z')])     # natd/1: a dynamic fact as base case of a compiled recursion
+    goal = high_goal(qn)
+    vm = {}
+    args = [impl.to_engine(yp, x, vm) for x in goal[2]]
+    cnt = [0]
+
+    def proj(x):
+        cnt[0] += 1
+        if k is not None and cnt[0] == k:
+            raise ProjErr('projection fails at answer %d' % k)
+        return cnt[0]
+    snap = snapshot()
+    q = yp.query(goal[1], args)
+    raised = None
+    result = None
+    try:
+        result = yp.evaluate_bounded(q, proj, recursion_limit=bound)
+    except RecursionError as e:
+        return ('recursion-error-escapes', 'RecursionError escaped from evaluate_bounded: %r' % (e,)), None
+    except ProjErr as e:
+        raised = e
+    except BaseException as e:  # noqa: BLE001
+        return ('unexpected-exception:' + impl.exc_sig(e), 'evaluate_bounded raised %r' % (e,)), None
+    now = sys.getrecursionlimit()
+    if now != 1000:
+        return ('recursion-limit-not-restored', 'sys.getrecursionlimit() is %d after the call, was 1000 before' % now), None
+    lo = leftover(snap)
+    if lo:
+        return ('variables-left-bound' + (':projection-error' if raised else ''),
+                'after evaluate_bounded returned%s, while the caller still holds the query object: %s' % (' by raising %r' % raised if raised else '', lo)), None
+    if raised is None and k is not None and result is not None and len(result) >= k:
+        return ('projection-error-swallowed', 'the projection raised at answer %d but %d results were returned' % (k, len(result))), None
+    if qn == 'len700':
+        if result is not None and len(result) > 1:
+            return ('not-a-prefix', '%d results, the query has one answer' % len(result)), None
+        # the search is finite and about 2100 frames deep: within a bound of 3000 it must be complete
+        if k is None and bound >= 3000 and result != [1]:
+            return ('incomplete-although-within-limit', 'result %r although recursion_limit=%d is far above the depth of the search (about 2100 frames)' % (result, bound)), None
+    elif raised is None and k is None:
+        # each answer of these searches is 2-4 frames deeper than the one before: a bound of B
+        # gives at least B/6 answers if the bound is really applied (and not the interpreter's lower limit)
+        if result is None or len(result) < bound // 6:
+            return ('incomplete-although-within-limit', 'only %d answers with recursion_limit=%d: the search was cut at a lower depth than the bound' % (len(result or []), bound)), None
+    return None, (len(result) if result is not None else -1, 'raised' if raised else 'returned')
+
+
+def run_high(spec, acc):
+    from ..runner import in_child
+    _, k, n = spec
+    for idx, (bound, qn, kk) in enumerate(high_cases()):
+        if idx % n != k:
+            continue
+        acc.n['evaluations'] += 1
+        acc.n['validated'] += 1
+        label = 'query %s, recursion_limit=%d (the interpreter\'s own limit is 1000), projection %s\n' % (
+            show_term(high_goal(qn)) if qn != 'len700' else 'len(<list of 700>, Q)', bound, 'identity' if kk is None else 'raising at answer %d' % kk)
+        try:
+            bad, info = in_child(_high_in_thread, bound, qn, kk, quiet=True)
+        except RuntimeError as e:
+            bad, info = ('interpreter-died', 'the process running the call died without a result (fatal error in the interpreter): %s' % str(e)[:300]), None
+        if bad:
+            acc.violation('high-bound:' + bad[0], (bound, qn, kk), {'high': [bound, qn, kk]}, label + bad[1], key='high|%d|%s|%s' % (bound, qn, kk))
+            continue
+        acc.n['transitions'] += max(info[0], 0) + 1
+        acc.n['nontrivial'] += 1
+        acc.outcome(('high', qn, bound, kk, info))
+
+
+def _high_in_thread(bound, qn, kk):
+    out = []
+
+    def target():
+        try:
+            out.append(high_case(bound, qn, kk))
+        except BaseException as e:  # noqa: BLE001
+            import traceback
+            out.append((('harness-error', traceback.format_exc()[-800:]), None))
+    threading.stack_size(512 * 1024 * 1024)
+    th = threading.Thread(target=target)
+    th.start()
+    th.join()
+    return out[0]
+
+
 def run_shard(spec):
     """evaluate_bounded is called from a fresh thread, so that the caller's own stack is
     far shallower than every explored limit (a precondition stated by the property)"""
     acc = Acc()
     err = []
+    if spec[0] == 'high':
+        run_high(spec, acc)
+        return acc
 
     def target():
         try:
@@ -347,6 +473,13 @@ def run_shard(spec):
 
 
 def replay(case):
+    if 'high' in case:
+        from ..runner import in_child
+        try:
+            bad, info = in_child(_high_in_thread, *case['high'], quiet=True)
+        except RuntimeError as e:
+            bad = ('interpreter-died', str(e)[:300])
+        return [('high-bound:' + bad[0], bad[1])] if bad else []
     out = []
 
     def target():
